@@ -420,7 +420,22 @@ impl Scenario for Hist {
                     Out::Rows(rows) => {
                         sel = Some(Out::Rows(rows.iter().map(|r| r[..ncols.min(r.len())].to_vec()).collect()));
                         if op.kind == Kind::Update {
-                            img = Some(Out::Rows(rows.iter().map(|r| r[ncols.min(r.len())..].to_vec()).collect()));
+                            // new images as they will be stored: strings cut to the column width
+                            let widths: Vec<Option<usize>> = self.world.tables.get(&table).map(|d| d.cols.iter().map(|c| if let Ty::Str(n) = c.ty { Some(n as usize) } else { None }).collect()).unwrap_or_default();
+                            img = Some(Out::Rows(
+                                rows.iter()
+                                    .map(|r| {
+                                        r[ncols.min(r.len())..]
+                                            .iter()
+                                            .enumerate()
+                                            .map(|(i, v)| match (v, widths.get(i).copied().flatten()) {
+                                                (SqlValue::Varchar(s), Some(w)) if s.chars().count() > w => SqlValue::Varchar(s.chars().take(w).collect()),
+                                                _ => v.clone(),
+                                            })
+                                            .collect()
+                                    })
+                                    .collect(),
+                            ));
                         }
                     }
                     other => sel = Some(other),
